@@ -1,9 +1,76 @@
-(* C06 -- property theorems (statements + exact only; proofs in Proofs/C06*.v). *)
-From PV Require Import Lib.Base Lib.Round Model.C12 Model.C06 Proofs.C06.
-From Coq Require Import QArith Qabs.
-#[local] Open Scope Q_scope.
+(* C06 -- performance MIDI export and import preserve notes, controls and timing.
+   Statements + `exact` only; proofs in Proofs/C06*.v.  The model (Model/C06.v: save, load,
+   pair_notes, sort_notes, tempo_list, adjust_time) is tied to partitura/io/exportmidi.py and
+   importmidi.py by the correspondence run by harness/props/c06.py on every check. *)
+From PV Require Import Lib.Base Lib.Round Model.C12 Model.C06 Proofs.C06_lib Proofs.C06.
+From Coq Require Import QArith Qabs Sorted Permutation.
+#[local] Open Scope Z_scope.
 
+(* O1a  the exporter's tick is a nearest tick of the time in seconds -- all ppq, mpq, times *)
 Theorem tick_of_sec_nearest : forall ppq mpq t,
-  Qabs (inject_Z (1000000 * ppq) * t / inject_Z mpq - inject_Z (sec_to_tick ppq mpq t)) <= 1 # 2.
+  (Qabs (inject_Z (1000000 * ppq) * t / inject_Z mpq - inject_Z (sec_to_tick ppq mpq t)) <= 1 # 2)%Q.
 Proof. exact tick_of_sec_nearest_lemma. Qed.
 Print Assumptions tick_of_sec_nearest.
+
+(* O1b  tick -> seconds -> tick is the identity (exact arithmetic) *)
+Theorem tick_roundtrip : forall ppq mpq k,
+  0 < ppq -> 0 < mpq -> sec_to_tick ppq mpq (tick_to_sec ppq mpq k) = k.
+Proof. exact tick_roundtrip_lemma. Qed.
+Print Assumptions tick_roundtrip.
+
+(* O1c  seconds -> tick -> seconds moves a time by at most half a tick *)
+Theorem sec_roundtrip_halftick : forall ppq mpq s,
+  0 < ppq -> 0 < mpq ->
+  (Qabs (tick_to_sec ppq mpq (sec_to_tick ppq mpq s) - s) <= inject_Z mpq / inject_Z (2 * (1000000 * ppq)))%Q.
+Proof. exact sec_roundtrip_halftick_lemma. Qed.
+Print Assumptions sec_roundtrip_halftick.
+
+(* O2a  adjust_time on tick-ordered tempo changes is the integral of the tempo step function:
+   every tick k < tick lasts tempo_at k microseconds per quarter / ppq *)
+Theorem adjust_time_sorted : forall ppq tc tick,
+  tick_sorted tc -> Forall (fun e => 0 <= fst e) tc -> 0 <= tick ->
+  adjust_time ppq tc tick = seconds_spec ppq tc tick.
+Proof. exact adjust_time_sorted_lemma. Qed.
+Print Assumptions adjust_time_sorted.
+
+(* O2b  the loader: whatever the order in which the tempo changes were read (any track), the
+   seconds of a tick are the integral over the changes ordered by tick *)
+Theorem load_seconds_spec : forall ppq collected tick,
+  Forall (fun e => 0 <= fst e) collected -> 0 <= tick ->
+  adjust_time ppq (tempo_list collected) tick = seconds_spec ppq (sort_by_tick collected) tick.
+Proof. exact load_seconds_spec_lemma. Qed.
+Print Assumptions load_seconds_spec.
+
+(* the integral on a file with a tempo change in a later track at an earlier tick (D12's witness:
+   tempo 600000 from tick 960 read first, tempo 250000 from tick 240 read second, ppq 480):
+   tick 1440 is at 0.25 + 0.375 + 0.6 s *)
+Theorem load_seconds_example :
+  (adjust_time 480 (tempo_list [(0, 500000); (960, 600000); (240, 250000)]%Z) 1440%Z == 1225 # 1000)%Q.
+Proof. exact load_seconds_example_lemma. Qed.
+Print Assumptions load_seconds_example.
+
+(* O3  a note-on (velocity > 0) is paired with the next note-off or zero-velocity note-on of the
+   same channel and pitch, whatever else happens in between on other keys *)
+Theorem pairing_next_off : forall pre t1 ch p v mid t2 m2 post,
+  0 < v ->
+  (forall e, In e mid -> is_note_ev (note_hash ch p) (snd e) = false) ->
+  is_off_for ch p m2 = true ->
+  In (mkLN p v ch t1 t2) (pair_notes [] (pre ++ (t1, NoteOn ch p v) :: mid ++ (t2, m2) :: post)).
+Proof. exact pairing_next_off_lemma. Qed.
+Print Assumptions pairing_next_off.
+
+(* pairing inverts event generation -- proved for notes written one after the other (any number,
+   any keys, any ticks); polyphonic interleavings are covered by pairing_next_off and the
+   correspondence only *)
+Theorem pairing_inverts_sequential_partial : forall ns,
+  Forall (fun n => 0 < ln_vel n) ns -> pair_notes [] (flat_map note_events ns) = ns.
+Proof. exact pairing_inverts_sequential_lemma. Qed.
+Print Assumptions pairing_inverts_sequential_partial.
+
+(* O4  ids n0, n1, ... are given along the sorted list: a permutation of the paired notes, ordered
+   lexicographically by (onset, pitch, offset, channel) (the track is constant within a part) *)
+Theorem ids_sorted_perm : forall l,
+  Permutation (sort_notes l) l /\
+  StronglySorted (fun a b => lex4_le (lnote_key a) (lnote_key b)) (sort_notes l).
+Proof. exact ids_sorted_perm_lemma. Qed.
+Print Assumptions ids_sorted_perm.
